@@ -292,6 +292,14 @@ pub fn run_c06(a: &Args, out: &PathBuf) -> Value {
                 conv_res(g.and_then(convert_shapes_to_vec_of::<S>), &c)
             });
             traces[i].emit(json!({"ev": "typed", "S": s, "typed": typed, "iter": titer, "conv": conv}));
+            // the same comparison on a reader that is not fresh: after seek(1) (with the index)
+            if n >= 2 {
+                let shx = bytes_of(&case["shx"]);
+                let open = || ShapeReader::with_shx(Cursor::new(shp.clone()), Cursor::new(shx.clone())).and_then(|mut r| r.seek(1).map(|_| r));
+                let typed2 = for_type!(s, S, { conv_res(open().and_then(|r| r.read_as::<S>()), &c) });
+                let conv2 = for_type!(s, S, { conv_res(open().and_then(|r| r.read()).and_then(convert_shapes_to_vec_of::<S>), &c) });
+                traces[i].emit(json!({"ev": "typedseek", "S": s, "k": 1, "typed": typed2, "conv": conv2}));
+            }
         }
     }
     let mut files = vec![];
